@@ -692,4 +692,137 @@ theorem trendsW_inside (q : Query) (w : Nat) (evs : List (Ty × Nat))
       have hb : b ∈ evs := hm b (List.mem_of_mem_getLast? (by simp [hl]))
       simp [h a ha b hb]
 
+/-! ### several windows: `flush()` + `reset` -/
+theorem Hamlet.runWindows_single (qs : List Query) (m : Nat) (evs : List Ty) :
+    Hamlet.runWindows qs m [evs] =
+      ((Hamlet.run qs m evs).1, (Hamlet.run qs m evs).2.map fun (q, v) => (0, q, v)) := by
+  simp [Hamlet.runWindows, Hamlet.run]
+
+theorem GretaImpl.runWindows_single (qs : List Query) (evs : List Ty) (known : Ty → Bool) :
+    GretaImpl.runWindows qs [evs] known =
+      ((GretaImpl.run qs evs known).1, (GretaImpl.run qs evs known).2.map fun (q, v) => (0, q, v)) := by
+  simp [GretaImpl.runWindows, GretaImpl.run]
+
+
+namespace Hamlet
+
+/-- template, registrations and sharing threshold: what `reset` keeps -/
+def CoreEq (a b : Agg) : Prop := a.tpl = b.tpl ∧ a.regs = b.regs ∧ a.minQueries = b.minQueries
+
+theorem CoreEq.refl (a : Agg) : CoreEq a a := ⟨rfl, rfl, rfl⟩
+theorem CoreEq.trans {a b c : Agg} (h1 : CoreEq a b) (h2 : CoreEq b c) : CoreEq a c :=
+  ⟨h1.1.trans h2.1, h1.2.1.trans h2.2.1, h1.2.2.trans h2.2.2⟩
+
+theorem core_setState (a : Agg) (q : Nat) (s : QState) : CoreEq a (setState a q s) := ⟨rfl, rfl, rfl⟩
+theorem core_addFinal (a : Agg) (q n : Nat) : CoreEq a (addFinal a q n) := by
+  unfold addFinal; split <;> exact ⟨rfl, rfl, rfl⟩
+
+theorem core_foldl {β : Type} (f : Agg → β → Agg) (hf : ∀ a b, CoreEq a (f a b)) :
+    ∀ (l : List β) (a : Agg), CoreEq a (l.foldl f a) := by
+  intro l
+  induction l with
+  | nil => intro a; exact CoreEq.refl a
+  | cons x xs ih => intro a; exact (hf a x).trans (ih (f a x))
+
+theorem core_processShared (a : Agg) (size : Nat) (qs : List Nat) : CoreEq a (processShared a size qs) := by
+  unfold processShared
+  apply core_foldl
+  intro a q
+  dsimp only
+  split
+  · exact CoreEq.refl a
+  · exact core_setState _ _ _
+
+theorem core_processNonShared (a : Agg) (size : Nat) (qs : List Nat) : CoreEq a (processNonShared a size qs) := by
+  unfold processNonShared
+  apply core_foldl
+  intro a q
+  dsimp only
+  split
+  · exact CoreEq.refl a
+  · split
+    · exact core_setState _ _ _
+    · exact CoreEq.refl a
+
+theorem core_processClosed (a : Agg) (ty : Ty) (size : Nat) : CoreEq a (processClosed a ty size) := by
+  unfold processClosed
+  split
+  · exact CoreEq.refl a
+  · dsimp only
+    split
+    · exact core_processShared _ _ _
+    · exact core_processNonShared _ _ _
+
+theorem core_updateQueryState (a : Agg) (q : Nat) (ty : Ty) : CoreEq a (updateQueryState a q ty).1 := by
+  unfold updateQueryState
+  repeat' (first | split | dsimp only)
+  all_goals first
+    | exact CoreEq.refl _
+    | exact core_setState _ _ _
+    | exact (core_setState _ _ _).trans (core_addFinal _ _ _)
+
+theorem core_update_fold (ty : Ty) : ∀ (regs : List (Nat × List Ty)) (a : Agg) (acc : List (Nat × Nat)),
+    CoreEq a (regs.foldl (fun (acc : Agg × List (Nat × Nat)) r =>
+      let (a', rep) := updateQueryState acc.1 r.1 ty
+      (a', match rep with | some v => acc.2 ++ [(r.1, v)] | none => acc.2)) (a, acc)).1 := by
+  intro regs
+  induction regs with
+  | nil => intro a acc; exact CoreEq.refl a
+  | cons r rs ih =>
+    intro a acc
+    simp only [List.foldl_cons]
+    exact (core_updateQueryState a r.1 ty).trans (ih _ _)
+
+theorem core_process (a : Agg) (ty : Ty) : CoreEq a (process a ty).1 := by
+  unfold process
+  split
+  · exact CoreEq.refl a
+  · dsimp only
+    refine CoreEq.trans ?_ (core_update_fold ty _ _ _)
+    cases a.lastTy with
+    | none => exact ⟨rfl, rfl, rfl⟩
+    | some l =>
+      dsimp only
+      split
+      · have := core_processClosed a l a.active
+        exact ⟨this.1, this.2.1, this.2.2⟩
+      · exact ⟨rfl, rfl, rfl⟩
+
+theorem core_events_fold : ∀ (l : List (Ty × Nat)) (a : Agg) (inc : List (Nat × Nat × Nat)),
+    CoreEq a (l.foldl (fun (acc : Agg × List (Nat × Nat × Nat)) (x : Ty × Nat) =>
+      match x with
+      | (ty, k) =>
+        let (a', reps) := process acc.1 ty
+        (a', acc.2 ++ reps.map fun (q, v) => (k, q, v))) (a, inc)).1 := by
+  intro l
+  induction l with
+  | nil => intro a inc; exact CoreEq.refl a
+  | cons x xs ih =>
+    intro a inc
+    obtain ⟨ty, k⟩ := x
+    simp only [List.foldl_cons]
+    exact (core_process a ty).trans (ih _ _)
+
+theorem regs_fst (qs : List Query) (m : Nat) :
+    (Agg.new qs m).regs.map (·.1) = List.range qs.length := by
+  simp only [Agg.new, List.map_map]
+  apply List.ext_getElem <;> simp
+
+/-- after `flush()` the mirror aggregator is the freshly constructed one: every window starts from
+`Agg.new qs m`, whatever happened in the windows before -/
+theorem reset_fresh (qs : List Query) (m : Nat) (a : Agg) (h : CoreEq (Agg.new qs m) a) :
+    reset a = Agg.new qs m := by
+  obtain ⟨h1, h2, h3⟩ := h
+  have hr := regs_fst qs m
+  unfold reset
+  rw [← h1, ← h2, ← h3]
+  have e1 : (Agg.new qs m).regs.map (fun r => (r.1, ({ cur := (Agg.new qs m).tpl.initialOf r.1 } : QState))) =
+      (List.range qs.length).map fun id => (id, ({ cur := (buildTemplate qs).initialOf id } : QState)) := by
+    rw [← hr, List.map_map]; rfl
+  have e2 : (Agg.new qs m).regs.map (fun r => (r.1, 0)) = (List.range qs.length).map fun id => (id, 0) := by
+    rw [← hr, List.map_map]; rfl
+  rw [e1, e2]
+  rfl
+
+end Hamlet
 end Varpulis.Trend
